@@ -1888,6 +1888,13 @@ class Gen:
     def g_join(self, name):
         op = self.base(name)
         op["other"] = self.pick(prefer_nonempty=True)
+        if name in ("left_join", "inner_join") and self.rng.random() < 0.8:
+            # merge joins edit the left items: prefer a right operand that shares none of them
+            mine = set(map(id, self.w.model[op["t"]].items))
+            free = [h for h in sorted(set(self.w.lists) - self.w.dropped)
+                    if self.w.model[h].items and not (mine & set(map(id, self.w.model[h].items)))]
+            if free:
+                op["other"] = self.rng.choice(free)
         op["by"] = self.join_by(op["t"], op["other"])
         return op
 
